@@ -1,9 +1,11 @@
 //! Helpers shared by the iceoryx2-level checks: isolated domains and leftover scanning.
 extern crate iceoryx2_bb_loggers;
 
-pub mod domain;
+pub use vice::domain;
 pub mod limits;
+pub mod pubsub;
 pub mod reqres;
+pub use vice::vcrash;
 
 pub fn silence_iceoryx_log() {
     iceoryx2_log::set_log_level(iceoryx2_log::LogLevel::Fatal);
